@@ -153,3 +153,14 @@ _add_unit("C05", {"name": "balloons-histories", "pkg": RESMGR, "run": "^TestVeri
 _add_unit("C04", {"name": "balloons-memory", "pkg": RESMGR, "run": "^TestVerifC04Balloons$", "replay_run": "^TestVerifC04BalloonsReplay$", "q": 200, "t": 40000, "per_proc": 500})
 _add_unit("C09", {"name": "balloons-leaks", "pkg": RESMGR, "run": "^TestVerifC09Balloons$", "replay_run": "^TestVerifC09BalloonsReplay$", "q": 200, "t": 40000, "per_proc": 500})
 _add_unit("C12", {"name": "balloons-optouts", "pkg": RESMGR, "run": "^TestVerifC12Balloons$", "replay_run": "^TestVerifC12BalloonsReplay$", "q": 200, "t": 40000, "per_proc": 500})
+_hist("C13", [
+    {"name": "identical-ta", "pkg": RESMGR, "run": "^TestVerifC13IdenticalTA$", "replay_run": "^TestVerifC13IdenticalTAReplay$", "q": 120, "t": 24000, "per_proc": 500},
+    {"name": "identical-balloons", "pkg": RESMGR, "run": "^TestVerifC13IdenticalBalloons$", "replay_run": "^TestVerifC13IdenticalBalloonsReplay$", "q": 120, "t": 24000, "per_proc": 500},
+    {"name": "accepted-ta", "pkg": RESMGR, "run": "^TestVerifC13AcceptedTA$", "replay_run": "^TestVerifC13AcceptedTAReplay$", "q": 120, "t": 24000, "per_proc": 500},
+    {"name": "accepted-balloons", "pkg": RESMGR, "run": "^TestVerifC13AcceptedBalloons$", "replay_run": "^TestVerifC13AcceptedBalloonsReplay$", "q": 120, "t": 24000, "per_proc": 500},
+    {"name": "rejected-ta", "pkg": RESMGR, "run": "^TestVerifC13RejectedTA$", "replay_run": "^TestVerifC13RejectedReplay$", "q": 80, "t": 16000, "per_proc": 300},
+    {"name": "rejected-balloons", "pkg": RESMGR, "run": "^TestVerifC13RejectedBalloons$", "replay_run": "^TestVerifC13RejectedReplay$", "q": 80, "t": 16000, "per_proc": 300},
+  ],
+  "rapid stateful histories with configuration updates at generated request boundaries; (a) identical: observables (runtime view, cache view, zones) before/after re-delivering the configuration in effect; (b) rejected: sequential twin executions with and without the rejected update (differential, guarded by a determinism self-check); (c) accepted: all invariant libraries of C01-C05/C09 evaluated on the step of the update under the new configuration",
+  "non-trivial = (a)/(c) the update arrived with >= 2 live containers (one holding exclusive CPUs or sitting in a user balloon for (a)); (b) the injected update (one of 6-8 rejection kinds per policy) was rejected",
+  ["twin executions run one after the other in the same process (topology-aware keeps options in package-level variables)"])
